@@ -847,6 +847,13 @@ class Interp:
         tgt = self._ctx_function(it.context_expr, env, m)
         if tgt is None:
             v = self.eval(it.context_expr, env, m)
+            if isinstance(v, tuple) and v and v[0] == "suppress":
+                try:
+                    self._with(st, k + 1, env, m)
+                except EvalRaise as ex_:
+                    if not self._exc_caught(ex_.exc_name, v[1]):
+                        raise
+                return
             if isinstance(v, CtxManager):
                 try:
                     entered = next(v.gen)
@@ -1508,7 +1515,10 @@ class Interp:
                 # dataclass default
                 for fname, ann, val, k in self.repo.dataclass_fields(o.cls):
                     if fname == attr:
-                        return self.eval(val, {}, k.module) if val is not None else None
+                        v_ = self._dc_default(val, k.module)
+                        if isinstance(v_, (list, dict, set)):
+                            o.fields[attr] = v_  # (a default made by a factory belongs to this instance from now on)
+                        return v_
                 r = self.repo.lookup(o.cls, attr)
                 if r is not None:
                     if any(getattr(d, "id", getattr(d, "attr", None)) == "property" for d in r[1].decorator_list):
@@ -1517,8 +1527,8 @@ class Interp:
                 if attr == "_fields_" and self.ev.is_struct(o.cls):
                     return self.getattr(("class", o.cls), attr)
                 la = self.repo.lookup_attr(o.cls, attr)
-                if la is not None and la[2] is not None and not self.repo.is_dataclass(la[0]):
-                    return self.class_attr((la[0], attr, la[2]))
+                if la is not None and la[2] is not None and (not self.repo.is_dataclass(la[0]) or attr not in [f_[0] for f_ in self.repo.dataclass_fields(la[0])]):
+                    return self.class_attr((la[0], attr, la[2]))  # (in a dataclass only annotated names are fields)
                 if getattr(self.sc, "ctypes_model", False) and self.ev.is_struct(o.cls):
                     raise EvalRaise("AttributeError", f"'{o.cls.name}' object has no attribute '{attr}'")
                 if getattr(self.sc, "real_objects", False):
@@ -1541,10 +1551,22 @@ class Interp:
             if attr == "__doc__":
                 return None
             return o[2].name if o[0] == "func" else o[1].name if o[0] == "closure" else o[2]
+        if isinstance(o, tuple) and o and o[0] == "external" and o[1].startswith("builtins.") and attr in ("__name__", "__qualname__", "__mro__"):
+            n_ = o[1].split(".", 1)[1]
+            return n_ if attr != "__mro__" else tuple(("external", "builtins." + x_) for x_ in ([n_] + (["int"] if n_ == "bool" else []) + (["object"] if n_ != "object" else [])))
         if isinstance(o, tuple) and o and o[0] == "class":
             c = o[1]
             if attr in ("__name__", "__qualname__"):
                 return c.name
+            if attr == "__mro__":
+                out_ = [("class", k_) for k_ in self.repo.mro(c)]
+                for k_ in self.repo.mro(c):
+                    for b_ in k_.node.bases:
+                        if isinstance(b_, ast.Name) and b_.id in ("int", "str", "float", "list", "dict", "tuple", "Exception") and ("external", "builtins." + b_.id) not in out_:
+                            out_.append(("external", "builtins." + b_.id))
+                return tuple(out_ + [("external", "builtins.object")])
+            if attr == "__bases__":
+                return tuple(("class", k_) for k_ in self.repo.mro(c)[1:2]) or (("external", "builtins.object"),)
             if attr == "_fields_" and self.ev.is_struct(c):
                 la = self.repo.lookup_attr(c, "_fields_")
                 if la is not None and la[2] is not None:
@@ -1682,7 +1704,7 @@ class Interp:
                     v = (lambda fv: (lambda *a, **k_: self.apply(fv, list(a), k_, e, m)))(v)
                 kw[k.arg] = v
             return f(*args, **kw)
-        if fname in ("count", "itertools.count"):
+        if fname in ("count", "itertools.count") and not getattr(self.sc, "lazy_generators", False):
             # an unbounded counter is cut off after 65 values; a search that needs more exceeds the loop bound and is reported
             args = [self.eval(a, env, m) for a in e.args]
             start = args[0] if args else 0
@@ -1690,11 +1712,31 @@ class Interp:
             return [start + k * step for k in range(65)]
         if fname == "next" and e.args:
             seq = self.eval(e.args[0], env, m)
+            if hasattr(seq, "__next__"):
+                try:
+                    return next(seq)  # a real iterator (a lazy generator of interpreted code, an itertools object): advanced by one
+                except StopIteration:
+                    if len(e.args) > 1:
+                        return self.eval(e.args[1], env, m)
+                    raise EvalRaise("StopIteration", "")
             for x in seq:
                 return x
             if len(e.args) > 1:
                 return self.eval(e.args[1], env, m)
             raise EvalRaise("StopIteration", "")
+        if fname == "type" and len(e.args) == 1 and "type" not in env:
+            return self._type_of(self.eval(e.args[0], env, m))
+        if fname == "iter" and len(e.args) == 2 and "iter" not in env:
+            fn_, sentinel = self.eval(e.args[0], env, m), self.eval(e.args[1], env, m)
+
+            def _until(fn_=fn_, sentinel=sentinel):
+                for _ in range(getattr(self.sc, "max_loop", None) or 64):
+                    v_ = self.apply(fn_, [], {}, e, m)
+                    if v_ is sentinel or (not isinstance(v_, (Obj, tuple)) and not isinstance(sentinel, (Obj, tuple)) and v_ == sentinel):
+                        return
+                    yield v_
+                raise AnalysisError("circuit evaluation: loop bound exceeded in iter(callable, sentinel)")
+            return _until()
         if fname in ("getattr", "hasattr", "setattr") and len(e.args) >= 2:
             o = self.eval(e.args[0], env, m)
             name = self.eval(e.args[1], env, m)
@@ -1841,6 +1883,10 @@ class Interp:
                     return self.sc.hardware
                 if f[2].name in self.sc.overrides:
                     return self.sc.overrides[f[2].name](*args, **kwargs)
+                if f[2].decorator_list and args:
+                    impl = self._singledispatch(f[1], f[2], args[0])
+                    if impl is not None:
+                        return self.call_function(f[1], impl, args, kwargs)
                 return self.call_function(f[1], f[2], args, kwargs)
             if kind == "boundmethod":
                 return self.method(f[1], f[2], args, kwargs, node)
@@ -1898,6 +1944,34 @@ class Interp:
                     return StructModel(args[0])
                 if name == "functools.partial" and args:
                     return ("partial", args[0], list(args[1:]), dict(kwargs))
+                if name in ("itertools.dropwhile", "itertools.takewhile", "itertools.filterfalse") and len(args) == 2:
+                    import itertools as _it
+                    pred_ = args[0]
+                    call_ = pred_ if callable(pred_) else (lambda x_, p_=pred_: self.apply(p_, [x_], {}, node, m))
+                    return getattr(_it, name.split(".")[1])(lambda x_: self.truth(call_(x_)), iter(self._iterable(args[1])))
+                if name == "itertools.accumulate" and args:
+                    import itertools as _it
+                    f_ = args[1] if len(args) > 1 else kwargs.get("func")
+                    kw_ = {"initial": kwargs["initial"]} if "initial" in kwargs else {}
+                    if f_ is None:
+                        return list(_it.accumulate(self._iterable(args[0]), **kw_))
+                    call_ = f_ if callable(f_) else (lambda a_, b_, p_=f_: self.apply(p_, [a_, b_], {}, node, m))
+                    return list(_it.accumulate(self._iterable(args[0]), call_, **kw_))
+                if name in ("itertools.zip_longest", "itertools.product", "itertools.permutations", "itertools.combinations"):
+                    import itertools as _it
+                    return list(getattr(_it, name.split(".")[1])(*[self._iterable(a_) if not isinstance(a_, int) else a_ for a_ in args], **kwargs))
+                if name == "itertools.count":
+                    import itertools as _it
+                    return _it.count(*args)  # lazy, as in Python: whoever iterates it is bounded by the loop / step bounds
+                if name == "itertools.groupby" and args:
+                    import itertools as _it
+                    kf_ = args[1] if len(args) > 1 else kwargs.get("key")
+                    call_ = (lambda x_: x_) if kf_ is None else kf_ if callable(kf_) else (lambda x_, p_=kf_: self.apply(p_, [x_], {}, node, m))
+                    return [(k_, list(g_)) for k_, g_ in _it.groupby(self._iterable(args[0]), call_)]
+                if name == "dataclasses.field":
+                    return ("dcfield", kwargs.get("default"), kwargs.get("default_factory"), "default" in kwargs)
+                if name == "contextlib.suppress":
+                    return ("suppress", [(a_[1].split(".")[-1] if isinstance(a_, tuple) and a_[0] == "external" else a_[1].name if isinstance(a_, tuple) and a_[0] == "class" else str(a_)) for a_ in args])
                 if name == "itertools.chain":
                     return [x_ for a_ in args for x_ in self._iterable(a_)]
                 if name == "itertools.chain.from_iterable" and len(args) == 1:
@@ -1937,6 +2011,13 @@ class Interp:
                     return self.sc.hardware
                 raise AnalysisError(f"circuit evaluation: external call {name}")
         if callable(f):
+            owner = getattr(f, "__self__", None)
+            if isinstance(owner, (list, dict, set, str, bytes, bytearray, tuple, frozenset)) and not isinstance(owner, (Obj,)):
+                # a method of a builtin container: what it raises is what the interpreted program sees
+                try:
+                    return f(*args, **kwargs)
+                except (KeyError, IndexError, ValueError) as ex_:
+                    raise EvalRaise(type(ex_).__name__, str(ex_))
             return f(*args, **kwargs)
         raise AnalysisError(f"circuit evaluation: call of {f!r} ({src(node)[:50]})")
 
@@ -1985,6 +2066,67 @@ class Interp:
                         ok = True
             cache[c.qualname] = ok
         return cache[c.qualname]
+
+    def _singledispatch(self, m, fn, first):
+        """for a module-level function under @functools.singledispatch: the implementation registered for the type of the first argument
+        (most specific class of its MRO that has one; `@f.register(T)` and `@f.register` with an annotated first parameter), None when
+        the function is not a single-dispatch function or nothing but the default applies"""
+        if not any((dotted(d_) or "").split(".")[-1] == "singledispatch" for d_ in fn.decorator_list):
+            return None
+        reg = self.repo.__dict__.setdefault("_nqsa_dispatch", {})
+        key = (m.name, fn.name)
+        if key not in reg:
+            impls = []
+            for st_ in m.tree.body:
+                if not isinstance(st_, ast.FunctionDef):
+                    continue
+                for d_ in st_.decorator_list:
+                    target = d_.func if isinstance(d_, ast.Call) else d_
+                    if isinstance(target, ast.Attribute) and target.attr == "register" and isinstance(target.value, ast.Name) and target.value.id == fn.name:
+                        if isinstance(d_, ast.Call) and d_.args:
+                            tnode = d_.args[0]
+                        elif st_.args.args and st_.args.args[0].annotation is not None:
+                            tnode = st_.args.args[0].annotation
+                        else:
+                            raise AnalysisError(f"circuit evaluation: {fn.name}.register without a type")
+                        impls.append((tnode, st_))
+            reg[key] = impls
+        if not reg[key]:
+            return None
+        table = [(self.eval(tnode, {}, m), impl) for tnode, impl in reg[key]]
+        for t_ in self.getattr(self._type_of(first), "__mro__"):
+            for rt_, impl in table:
+                if rt_ == t_ or (isinstance(rt_, tuple) and isinstance(t_, tuple) and rt_[0] == t_[0] == "class" and rt_[1] is t_[1]):
+                    return impl
+        return None
+
+    def _dc_default(self, val, module):
+        """the default of a dataclass field: the evaluated expression, or what `field(default=..., default_factory=...)` says"""
+        if val is None:
+            return None
+        v_ = self.eval(val, {}, module)
+        if isinstance(v_, tuple) and len(v_) == 4 and v_[0] == "dcfield":
+            if v_[2] is not None:
+                return self.apply(v_[2], [], {}, val, module)
+            return v_[1]
+        return v_
+
+    def _type_of(self, v):
+        """type(v) for the values of the interpreter"""
+        if isinstance(v, Obj) and v.cls is not None:
+            return ("class", v.cls)
+        if isinstance(v, EnumMember):
+            mod_, cn_ = v.enum.split(":")
+            return ("class", self.repo.get_class(mod_, cn_.split(".")[-1]))
+        if isinstance(v, Imm):
+            return ("class", self.repo.get_class("netqasm.lang.operand", "Immediate"))
+        if v is None:
+            return ("external", "builtins.NoneType")
+        if isinstance(v, (bool, int, float, str, bytes, list, tuple, dict, set, frozenset, bytearray, slice)) and not (isinstance(v, tuple) and v and isinstance(v[0], str) and v[0] in ("class", "func", "external", "closure", "lambda", "boundmethod", "partial")):
+            return ("external", "builtins." + type(v).__name__)
+        if isinstance(v, tuple) and hasattr(v, "_fields"):
+            raise AnalysisError("circuit evaluation: type() of a namedtuple instance")
+        raise AnalysisError(f"circuit evaluation: type() of {type(v).__name__}")
 
     def _receiver(self, fn, o):
         """what a method called through the instance o receives first: the instance, its class for a classmethod, nothing for a staticmethod"""
@@ -2048,7 +2190,7 @@ class Interp:
         if getattr(self.sc, "run_constructors", False) and self.repo.is_dataclass(c):
             for fname, ann, val, k in self.repo.dataclass_fields(c):
                 if fname not in o.fields:
-                    o.fields[fname] = self.eval(val, {}, k.module) if val is not None else None
+                    o.fields[fname] = self._dc_default(val, k.module)
             r = self.repo.lookup(c, "__post_init__")
             if r is not None:
                 self.call_function(r[0].module, r[1], [], {}, self_obj=o)
